@@ -2,6 +2,7 @@
 (* GEN for C55 (harness/strainmeasure.cxx).  TIER = "quick" | "thorough" (environment).
    kind "gl"    : Saint Venant-Kirchhoff, integer deformation gradients F0 (beginning of the step) and F1 (end);
    kind "log"   : Hencky, F1 = R.Q.diag(2^k).Q^T from exponents k and integer quaternions q, r; F0 an integer matrix;
+   kind "ps"    : Saint Venant-Kirchhoff under the plane stress hypotheses, axial stretch carried by the state variable AxialStrain;
    kind "cycle" : closed polygon of integer deformation gradients starting and ending at the identity, followed step by
                   step by the incremental form of the law (both wrappers). *)
 EXTENDS StrainMeasure, TLC, Json, IOUtils, SequencesExt
@@ -76,9 +77,25 @@ Cyc == CycleCases(1) \cup CycleCases(2) \cup CycleCases(3)
 \* the determinant stays positive along the straight segments of a cycle (sampled at t = j / 8)
 PositiveAlong(cy) == \A i \in 1..(Len(cy) - 1) : \A j \in 0..8 : Det(Add(Scale(8 - j, cy[i]), Scale(j, cy[i + 1]))) > 0
 
+\* ---- plane stress hypotheses (kind "ps", behaviour VfHyperPS) ------------------------------------------------------------------
+\* The axial stretch is not an input of the behaviour: the wrapper rebuilds it from the state variable AxialStrain
+\* (sqrt(1 + 2 ezz)) at the beginning and at the end of the step. The probe law imposes ezz = (a^2 - 1) / 2 with a the
+\* axial component of the integer deformation gradients below, so that the expected stresses are those of the same
+\* Saint Venant-Kirchhoff oracle at the complete 3 x 3 gradients. Pairs with different axial stretches at the two ends of
+\* the step (in both orders) tell the beginning-of-step state from the end-of-step one.
+PSHyp(n) == IF n = 2 THEN "PlaneStress" ELSE "AxisymmetricalGeneralisedPlaneStress"
+Axial(n, f) == IF n = 2 THEN f[3][3] ELSE f[2][2]
+PSF0s(n) == F0s(n) \cup (IF n = 2 THEN {Diag(1, 1, 2), Mul(Diag(1, 1, 3), Sh(1, 2, 1))} ELSE {Diag(1, 2, 1), Diag(2, 3, 1)})
+PSF1s(n) == Base(n) \cup (IF n = 2 THEN {Diag(1, 1, 3), Mul(Sh(2, 1, 1), Diag(2, 1, 2))} ELSE {Diag(1, 3, 1), Diag(2, 2, 2)})
+PSn(n) == {[kind |-> "ps", beh |-> "VfHyperPS", n |-> n, hyp |-> PSHyp(n), l2 |-> m[1], mu |-> m[2], F0 |-> RowMajor(ff[1]), F1 |-> RowMajor(ff[2]),
+            J |-> Det(ff[2]), J0 |-> Det(ff[1]), a0 |-> Axial(n, ff[1]), a1 |-> Axial(n, ff[2])]
+           : m \in Moduli, ff \in PSF0s(n) \X PSF1s(n)}
+PStress == PSn(1) \cup PSn(2)
+
 Number(S) == LET s == SetToSeq(S) IN [i \in 1..Len(s) |-> [id |-> i] @@ s[i]]
-All == LET a == Number(GL) b == Number(Log) c == Number(Cyc) IN
+All == LET a == Number(GL) b == Number(Log) c == Number(Cyc) d == Number(PStress) IN
        a \o [i \in 1..Len(b) |-> [b[i] EXCEPT !.id = @ + Len(a)]] \o [i \in 1..Len(c) |-> [c[i] EXCEPT !.id = @ + Len(a) + Len(b)]]
+         \o [i \in 1..Len(d) |-> [d[i] EXCEPT !.id = @ + Len(a) + Len(b) + Len(c)]]
 \* ---- sanity of the oracle and of the lattice ------------------------------------------------------------------------------------
 ASSUME OracleTheorems
 ASSUME \A n \in 1..3 : \A f \in F1s(n) \cup F0s(n) : Det(f) > 0 /\ HasShape(n, f)
@@ -89,6 +106,11 @@ ASSUME \A n \in 1..3 : \A m \in Moduli : \A f \in F1s(n) : HyperelasticTheorem(m
 \* objectivity and isotropy of the oracle on the pairs (f, Rt.f) that are generated
 ASSUME \A n \in 1..3 : \A m \in Moduli : \A Rt \in Rots(n) : \A f \in ToRotate(n) : ObjectivityTheorem(m[1], m[2], f, Rt) /\ Mul(Rt, f) \in F1s(n)
 ASSUME \A n \in 1..3 : \A cy \in Cycles(n) : PositiveAlong(cy) /\ cy[1] = Id3 /\ cy[Len(cy)] = Id3 /\ \A i \in 1..Len(cy) : HasShape(n, cy[i])
+ASSUME \A n \in 1..2 : \A f \in PSF0s(n) \cup PSF1s(n) : Det(f) > 0 /\ HasShape(n, f)
+\* the plane stress cases tell the two ends of the step apart, in both orders, and from the value 1 a solver could pass
+ASSUME \A n \in 1..2 : /\ \E c \in PSn(n) : c.a0 = 1 /\ c.a1 > 1
+                       /\ \E c \in PSn(n) : c.a0 > 1 /\ c.a1 = 1
+                       /\ \E c \in PSn(n) : c.a0 > 1 /\ c.a1 > 1 /\ c.a0 # c.a1
 ASSUME \A n \in 2..3 : Rots(n) \subseteq CubeRotations
 ASSUME \A c \in Log : (c.n = 2 => IsZRot(c.q) /\ IsZRot(c.r)) /\ (c.n = 1 => c.q = Identity4 /\ c.r = Identity4)
 ASSUME \A c \in {c \in Log : QuatNorm(c.q) * QuatNorm(c.r) <= 4} : HenckyTheorem(c)
@@ -96,5 +118,5 @@ ASSUME \A n \in 1..3 : /\ \E c \in Log : c.n = n /\ Cardinality({c.k[1], c.k[2],
                        /\ \E c \in Log : c.n = n /\ Cardinality({c.k[1], c.k[2], c.k[3]}) = 2
                        /\ \E c \in Log : c.n = n /\ Cardinality({c.k[1], c.k[2], c.k[3]}) = 1
 ASSUME ndJsonSerialize(IOEnv.OUT, All)
-ASSUME PrintT(<<"GEN", Cardinality(GL), Cardinality(Log), Cardinality(Cyc)>>)
+ASSUME PrintT(<<"GEN", Cardinality(GL), Cardinality(Log), Cardinality(Cyc), Cardinality(PStress)>>)
 =============================================================================
